@@ -9,10 +9,13 @@ case "$P" in
   *) git apply "$P" || { echo "cannot apply"; exit 9; } ;;
 esac
 cd /verif
+# the evidence files describe the unchanged tree: keep them out of reach of runs on a changed one
+rm -rf /verif/target/evidence.keep && cp -r /verif/evidence /verif/target/evidence.keep
 for pr in "$@"; do
   ./check "$pr" "$TIER" > "/verif/target/logs/try-$pr.log" 2>&1
   rc=$?
   echo "== $P $pr exit=$rc: $(grep -c '^VIOLATION' /verif/target/logs/try-$pr.log) violation lines"
   grep -E "^  C[0-9]+:|INCONCLUSIVE" "/verif/target/logs/try-$pr.log" | head -4
 done
-git -C /repo checkout -- . 
+git -C /repo checkout -- .
+cp /verif/target/evidence.keep/*.json /verif/evidence/ 2>/dev/null
